@@ -75,6 +75,11 @@ def bern_cases():
     r = hlib.rng('c18bern')
     groups = []        # (us, [p...])  : one stream, several probabilities (monotonicity)
     groups.append((list(PV), list(PV)))
+    # legal draws only (every one in [0, 1)), including the ones closest to 1 and closest to the thresholds: probability 1 gives all ones,
+    # probability 0 all zeros, and a draw just below a threshold counts as below it (nothing may round the stream before comparing)
+    legal = [0.0, 5e-324, 0.25, nextafter(0.5, 0.0), 0.5, nextafter(0.5, 1.0), 0.2999999999, 1.0 - 1e-10, 1.0 - 2.0 ** -30, nextafter(1.0, 0.0)]
+    groups.append((legal, [0.0, 1.0, 0.5, nextafter(0.5, 1.0), 0.3, 1.0 - 2.0 ** -40, nextafter(1.0, 0.0)]))
+    groups.append(([nextafter(1.0, 0.0)] * 5, [1.0, nextafter(1.0, 0.0), 0.0]))
     n = 60 if hlib.QUICK else 700
     for _ in range(n):
         size = r.randint(0, 8)
